@@ -47,7 +47,7 @@ class Run:
                     outcome = await fut
                     if outcome == "success":
                         run.ok_n += 1
-                        tok = {"access_token": f"new{run.ok_n}", "token_type": "Bearer", "expires_in": 3600}
+                        tok = {"access_token": f"new{run.ok_n}" + run.cfg.get("token_suffix", ""), "token_type": "Bearer", "expires_in": 3600}
                         if run.cfg.get("resp") == "no-expiry":
                             tok.pop("expires_in")          # RFC 6749: expires_in is RECOMMENDED, not required
                         if run.cfg["grant"] == "refresh_rotating":
